@@ -497,17 +497,20 @@ pub mod large {
         pub edits: u16,
         /// an earlier call with sequences of the same lengths through this entry point
         pub earlier: Option<Entry>,
+        /// lengths of unrelated x-prefix, y-prefix, x-suffix, y-suffix stretches
+        #[serde(default)]
+        pub junk: [u8; 4],
     }
 
     pub fn check(c: &Case) -> R {
         ensure!(c.m >= 1 && c.n >= 1 && c.m <= 1100 && c.n <= 1100 && c.k >= 1, "harness: case outside the large-scale domain");
-        let (x, y) = c01::large::gen_pair(c.seed, c.m, c.n, c.content, c.spec.sigma, c.edits);
+        let (x, y) = c01::large::gen_pair_junk(c.seed, c.m, c.n, c.content, c.spec.sigma, c.edits, c.junk);
         let call = BCall { entry: c.entry.clone(), x: B(x), y: B(y) };
         let mk = || Aligner::with_scoring(c.spec.scoring(c.with_match_scores), c.k, c.w);
         let mut fresh = mk();
         let r = check_call("fresh aligner (large):", &mut fresh, &call, &c.spec, c.k, c.w)?;
         if let Some(e) = &c.earlier {
-            let (x0, y0) = c01::large::gen_pair(c.seed ^ 0x5eed, c.m, c.n, c.content, c.spec.sigma, c.edits);
+            let (x0, y0) = c01::large::gen_pair_junk(c.seed ^ 0x5eed, c.m, c.n, c.content, c.spec.sigma, c.edits, [c.junk[1], c.junk[0], c.junk[3], c.junk[2]]);
             let first = BCall { entry: e.clone(), x: B(x0), y: B(y0) };
             let mut used = mk();
             check_call("earlier call of the same shape (large):", &mut used, &first, &c.spec, c.k, c.w)?;
@@ -530,6 +533,7 @@ pub mod large {
         p.add_if(c.earlier.is_some(), "reuse with an earlier call of the same shape");
         p.add_if(r.has_clip, "clipped end");
         p.add_if(c.content > 0, "byte values beyond the letters");
+        p.add_if(c.junk.iter().any(|j| *j > 0), "unrelated prefix/suffix stretches");
         Ok(p)
     }
 
@@ -561,9 +565,98 @@ pub mod large {
                     any::<u64>(),
                     prop_oneof![4 => 0u16..=12, 2 => 12u16..=60],
                     proptest::option::weighted(0.5, simple_entry()),
+                    prop_oneof![2 => Just([0u8; 4]), 3 => [0u8..=40, 0u8..=40, 0u8..=40, 0u8..=40], 2 => [0u8..=40, 0u8..=6, 0u8..=0, 0u8..=0]],
                 )
             })
-            .prop_map(|((spec, with_match_scores, k, w), entry, m, n, content, seed, edits, earlier)| Case { spec, with_match_scores, k, w, entry, m, n, content, seed, edits, earlier })
+            .prop_map(|((spec, with_match_scores, k, w), entry, m, n, content, seed, edits, earlier, junk)| Case { spec, with_match_scores, k, w, entry, m, n, content, seed, edits, earlier, junk })
+            .boxed()
+    }
+}
+
+
+// ---------------------------------------------------------------------------
+// same-shape reuse: two consecutive calls on one banded aligner with sequences of identical lengths
+// (matrices of 65536 or more cells), different modes / clip penalties; the second result must equal the
+// result of a fresh aligner. Cheap (no optimum oracle), so it runs in large numbers.
+
+pub mod reuse {
+    use super::*;
+
+    #[derive(Serialize, Deserialize, Debug, Clone)]
+    pub struct Case {
+        pub spec: ScoreSpec,
+        pub k: usize,
+        pub w: usize,
+        pub m: usize,
+        pub n: usize,
+        pub seed: u64,
+        pub first: Entry,
+        /// clip penalties in force during the first call (set through get_mut_scoring), restored before the second
+        pub first_clips: [Option<i32>; 4],
+        pub second: Entry,
+        pub edits: u16,
+        pub junk: [u8; 4],
+    }
+
+    fn set_clips(al: &mut Aligner<TableFn>, c: [Option<i32>; 4]) {
+        let s = al.get_mut_scoring();
+        s.xclip_prefix = c[0].unwrap_or(MIN_SCORE);
+        s.xclip_suffix = c[1].unwrap_or(MIN_SCORE);
+        s.yclip_prefix = c[2].unwrap_or(MIN_SCORE);
+        s.yclip_suffix = c[3].unwrap_or(MIN_SCORE);
+    }
+
+    pub fn check(c: &Case) -> R {
+        ensure!(c.m >= 1 && c.n >= 1 && c.m <= 600 && c.n <= 600, "harness: case outside the reuse domain");
+        let (xa, ya) = c01::large::gen_pair_junk(c.seed ^ 0x5eed, c.m, c.n, 0, c.spec.sigma, c.edits, [0; 4]);
+        let (xb, yb) = c01::large::gen_pair_junk(c.seed, c.m, c.n, 0, c.spec.sigma, c.edits, c.junk);
+        let first = BCall { entry: c.first.clone(), x: B(xa), y: B(ya) };
+        let second = BCall { entry: c.second.clone(), x: B(xb), y: B(yb) };
+        let mk = || Aligner::with_scoring(c.spec.scoring(true), c.k, c.w);
+        let mut used = mk();
+        set_clips(&mut used, c.first_clips);
+        let _ = run_call(&mut used, &first, &c.spec, c.k);
+        set_clips(&mut used, c.spec.clips);
+        let a_used = run_call(&mut used, &second, &c.spec, c.k).a;
+        let out = run_call(&mut mk(), &second, &c.spec, c.k);
+        let a_fresh = out.a;
+        ensure!(
+            a_used == a_fresh,
+            "banded result depends on the aligner's history: after {} (clip penalties {:?}) on sequences of the same lengths {}x{}, {} returns score {} x {}..{} y {}..{} with {} operations; a fresh aligner returns score {} x {}..{} y {}..{} with {} operations (k={} w={} scoring {:?} seed {} edits {} junk {:?})",
+            c.first.label(), c.first_clips, c.m, c.n, c.second.label(), a_used.score, a_used.xstart, a_used.xend, a_used.ystart, a_used.yend, a_used.operations.len(), a_fresh.score, a_fresh.xstart, a_fresh.xend, a_fresh.ystart, a_fresh.yend, a_fresh.operations.len(), c.k, c.w, c.spec, c.seed, c.edits, c.junk
+        );
+        let partial = out.n_matches > 0 && !out.full_band;
+        let starts_with_gap_or_clip = matches!(a_fresh.operations.first(), Some(AlignmentOperation::Ins) | Some(AlignmentOperation::Del) | Some(AlignmentOperation::Xclip(_)) | Some(AlignmentOperation::Yclip(_)));
+        Ok(Pass::new(partial)
+            .class_if(partial, "partial band")
+            .class_if((c.m + 1) * (c.n + 1) >= 65536, "matrix of 65536 or more cells")
+            .class_if((c.m + 1) * (c.n + 1) < 65536, "matrix below 65536 cells")
+            .class_if(starts_with_gap_or_clip, "second alignment starts with a gap or clip")
+            .class_if(a_fresh.xstart > 0 && a_fresh.operations.iter().take(8).any(|o| *o == AlignmentOperation::Del), "x prefix clipped and y prefix deleted")
+            .class_if(c.first_clips != c.spec.clips, "clip penalties changed between the calls"))
+    }
+
+    fn simple() -> BoxedStrategy<Entry> {
+        prop_oneof![3 => Just(Entry::Custom), 2 => Just(Entry::Semiglobal), 1 => Just(Entry::Local), 1 => Just(Entry::Global), 1 => Just(Entry::CustomPrehash)].boxed()
+    }
+
+    pub fn strat(_t: Tier) -> BoxedStrategy<Case> {
+        (2u8..=4)
+            .prop_flat_map(|sigma| {
+                (
+                    c01::spec(sigma),
+                    [c01::clip(), c01::clip(), c01::clip(), c01::clip()],
+                    prop_oneof![3 => 3usize..=6, 1 => 7usize..=9],
+                    prop_oneof![3 => Just(0usize), 3 => Just(1usize), 2 => 2usize..=4],
+                    prop_oneof![5 => (255usize..=266, 255usize..=266), 2 => (30usize..=60, 30usize..=60), 1 => (300usize..=330, 200usize..=230)],
+                    any::<u64>(),
+                    simple(),
+                    simple(),
+                    0u16..=10,
+                    prop_oneof![1 => Just([0u8; 4]), 3 => [0u8..=30, 0u8..=6, 0u8..=20, 0u8..=4], 2 => [0u8..=6, 0u8..=30, 0u8..=4, 0u8..=20]],
+                )
+            })
+            .prop_map(|(spec, first_clips, k, w, (m, n), seed, first, second, edits, junk)| Case { spec, k, w, m, n, seed, first, first_clips, second, edits, junk })
             .boxed()
     }
 }
@@ -591,6 +684,7 @@ pub fn property() -> Property {
                 watch: true,
             }),
             Box::new(PropSub { name: "C02/large", quick: 1_600, thorough: 40_000, shards_quick: 16, shards_thorough: 16, strat: large::strat, check: large::check, must_reach: &["partial band", "matrix of 65536 or more cells", "a length in 255..257", "a length in 511..513", "a length in 1023..1025", "reuse with an earlier call of the same shape", "banded score below the unbanded optimum", "entry semiglobal", "entry custom", "entry local"], watch: true }),
+            Box::new(PropSub { name: "C02/reuse-same-shape", quick: 64_000, thorough: 4_000_000, shards_quick: 16, shards_thorough: 16, strat: reuse::strat, check: reuse::check, must_reach: &["partial band", "matrix of 65536 or more cells", "second alignment starts with a gap or clip", "x prefix clipped and y prefix deleted", "clip penalties changed between the calls"], watch: true }),
             Box::new(ExhSub { name: "C02/exhaustive", enumerate: enumerate_small, check, must_reach: &["partial band", "full band (no match)", "w=0", "entry global", "entry semiglobal", "entry local"] }),
             Box::new(ExhSub { name: "C02/budget", enumerate: enumerate_budget, check: check_budget, must_reach: &["exactly 5,000,000 cells: aligned", "above 10,000,000 cells: sentinel"] }),
         ],
